@@ -193,6 +193,52 @@ def secondAttempt (elect : (α → Nat) → α → List α → Option α → α)
         | none => .neverReady
       else .follows elected⟩
 
+/-! ### time-outs of a waiting relayer -/
+
+/-- a silence: longer than `CoordinatorTimeout` but shorter than `TssTimeout`, or longer than `TssTimeout`
+    (the configuration keeps CoordinatorTimeout < TssTimeout: 3 min vs 15 min) -/
+inductive Quiet where
+  | coord | tss
+deriving DecidableEq, Repr
+
+/-- what a waiting relayer experiences: a message, or a silence (nothing that resets its ticker) of some length -/
+inductive TEv (α : Type) where
+  | msg (e : Ev α)
+  | quiet (q : Quiet)
+deriving DecidableEq, Repr
+
+/-- does a silence of length `q` exhaust a wait whose ticker was created with the time-out `limit` -/
+def expires : Quiet → Quiet → Bool
+  | .coord, _ => true
+  | .tss, .tss => true
+  | .tss, .coord => false
+
+structure TSt (α : Type) where
+  w        : WSt α
+  timedOut : Bool       -- waitForStart returned CoordinatorError / watchExecution returned its time-out error
+deriving Repr
+
+/-- `waitForStart(…, cw, limit)` next to `watchExecution(…, cf)` (whose ticker is always `TssTimeout`) -/
+def stepTimed (cw cf : Option α) (limit : Quiet) (s : TSt α) : TEv α → TSt α
+  | .msg e => if s.timedOut then s else { s with w := stepWait2 cw cf s.w e }
+  | .quiet q =>
+    if s.timedOut then s else
+    match s.w.phase with
+    | .waiting => if expires limit q || expires .tss q then { s with timedOut := true } else s
+    | .running => if expires .tss q then { s with timedOut := true } else s
+    | .finished _ => s
+
+def runTimed (cw cf : Option α) (limit : Quiet) (tr : List (TEv α)) : TSt α :=
+  tr.foldl (stepTimed cw cf limit) ⟨initW, false⟩
+
+/-- the relayer left out of the subset: `handleError` waits with `TssTimeout`, knowing no coordinator -/
+def runLeftOut (tr : List (TEv α)) : TSt α := runTimed none none .tss tr
+
+def msgsOf : List (TEv α) → List (Ev α)
+  | [] => []
+  | .msg e :: es => e :: msgsOf es
+  | .quiet _ :: es => msgsOf es
+
 /-! ### the code as found (before the repair), kept to state the defect -/
 
 /-- the type switch of the as-found `handleError`: only the outermost value is looked at -/
